@@ -52,6 +52,11 @@ func genClientHeaders(rng *vh.Rng) []string {
 	if rng.Chance(15) {
 		lines = append(lines, "Connection: "+rng.Pick([]string{"X-Inverting-Proxy-User-ID", "keep-alive, x-inverting-proxy-user-id", "close", "X-Other, Authorization"}))
 	}
+	if rng.Chance(10) {
+		// several Connection lines, the identity header named in a later one (the first must not be "close": the parser drops Connection then)
+		lines = append(lines, "Connection: keep-alive", "Connection: "+rng.Pick([]string{"X-Inverting-Proxy-User-ID", "x-other , X-INVERTING-PROXY-USER-ID"}))
+		return lines // keep their order
+	}
 	// shuffle
 	for i := len(lines) - 1; i > 0; i-- {
 		j := rng.Intn(i + 1)
